@@ -168,6 +168,7 @@ def check(run):
 
     # through the real column loaders
     through_loaders(run, codes, minor, middle, major)
+    first_use_from_threads(run)
     run.exhaustive = True
 
 
@@ -221,6 +222,19 @@ def through_loaders(run, codes, minor, middle, major):
                             run.violation('euler-not-orthonormal', dict(path='loader', column=f, requested=req, worst_norm=float(nrm[np.argmax(np.abs(nrm - 1))])))
                             break
         run.count('loader_columns_checked', len(fields))
+        # the same columns through a filtered load: the kept rows carry the decode of *their* codes (filters that drop rows in the
+        # middle, at the start, everything but one row)
+        nrow = len(cat.halos)
+        for label, keep in (('every-third-dropped', lambda h: np.arange(len(h)) % 3 != 1), ('first-rows-dropped', lambda h: np.arange(len(h)) >= 7), ('one-row-kept', lambda h: np.arange(len(h)) == len(h) // 2)):
+            catf = CompaSOHaloCatalog(tree['path'], cleaned=False, fields=fields, filter_func=keep)
+            mask = keep(cat.halos)
+            run.ev()
+            run.nt(('loader-filtered', label))
+            for f in fields:
+                run.count('filtered_loader_columns_checked')
+                if len(catf.halos) != int(mask.sum()) or not np.array_equal(np.asarray(catf.halos[f]), np.asarray(cat.halos[f])[mask]):
+                    run.violation('euler-loader-mismatch', dict(column=f, problem='filtered load differs from the same rows of the unfiltered load', filter=label, rows_kept=int(mask.sum()), rows=nrow))
+                    break
     finally:
         shutil.rmtree(tree['root'], ignore_errors=True)
     # several files with degenerate contents: a single halo, all codes equal (0, the largest code, one in between), then a mixed file
@@ -244,6 +258,61 @@ def through_loaders(run, codes, minor, middle, major):
         run.nt(('loader-degenerate-files', len(per_file)))
     finally:
         shutil.rmtree(tree['root'], ignore_errors=True)
+
+
+def first_use_case(case):
+    """Runs in a fresh child process: the process's *first* eigenvector decode is issued from several Python threads at once
+    (a thread pool over files does exactly that); every thread's triads must equal what a later, quiet call returns."""
+    import threading
+
+    from abacusnbody.data import compaso_halo_catalog as chc
+
+    rng = np.random.default_rng(case['seed'])
+    nth = case['threads']
+    subs = [rng.integers(0, NCODES, case['n']).astype(np.uint16) for _ in range(nth)]
+    res = [None] * nth
+    bar = threading.Barrier(nth)
+
+    def work(i):
+        bar.wait()
+        try:
+            res[i] = chc._unpack_euler16(subs[i])
+        except Exception as e:  # noqa
+            res[i] = e
+
+    ths = [threading.Thread(target=work, args=(i,)) for i in range(nth)]
+    [t.start() for t in ths]
+    [t.join() for t in ths]
+    wrong, errors = 0, []
+    for i in range(nth):
+        if isinstance(res[i], Exception):
+            errors.append(f'{type(res[i]).__name__}: {res[i]}'[:200])
+            continue
+        quiet = chc._unpack_euler16(subs[i])
+        wrong += int(any(not np.array_equal(a, b, equal_nan=True) for a, b in zip(res[i], quiet)))
+        M = np.stack(res[i], axis=1).astype(np.float64)
+        wrong += int(not (np.abs(np.einsum('nij,nkj->nik', M, M) - np.eye(3)).max() <= 1e-12))
+    return dict(wrong=wrong, errors=errors, threads=nth)
+
+
+def first_use_from_threads(run):
+    from .. import sandbox
+
+    cases = [dict(seed=int(run.seed) * 100 + k, threads=t, n=40000) for k, t in enumerate((2, 8, 4) if run.quick else (2, 8, 4, 16, 2, 8, 3, 5))]
+    for case in cases:
+        r = sandbox.run_batch('vlib.checks.c18:first_use_case', [case], timeout=600, label='first-use', poison=False)[0]
+        run.ev()
+        if not r or r.get('status') != 'ok':
+            if r and r.get('status') == 'exception':
+                run.violation('euler-first-use-from-threads', dict(case=case, error=f"{r.get('etype')}: {r.get('msg')}"[:300]))
+            else:
+                run.note_inconclusive(f'first-use child did not finish: {str(r)[:200]}')
+            continue
+        run.count('first_use_thread_decodes', case['threads'])
+        run.nt(('first-use-threads', case['threads']))
+        res = r['result']
+        if res['wrong'] or res['errors']:
+            run.violation('euler-first-use-from-threads', dict(case=case, threads_with_wrong_triads=res['wrong'], errors=res['errors'][:3]))
 
 
 def replay(run, data):
